@@ -196,6 +196,24 @@ def jacobian_cases(cell, gdim, rng, full):
     if t > 1:
         out.append(("I_fixed_zero", Sum(prod(IX(It, 0, 1), x), x)))
     out.append(("I_I", SUM(prod(IX(It, i, j), IX(It, j, l)), j)))
+    # several contractions in ONE expression that share their dummy index OBJECTS but pair them with
+    # different free indices (the substitution k -> a of one elimination must not leak into the next)
+    a_, b_ = Index(), Index()
+    tmpl = {
+        "Iv": lambda fr, v: SUM(prod(IX(It, fr, j), IX(v, j)), j),
+        "Ivl": lambda fr, v: SUM(prod(IX(v, j), IX(It, j, fr)), j),
+        "KJv": lambda fr, v: SUM(SUM(prod(IX(K, fr, k), IX(J, k, j), IX(v, j)), k), j),
+        "push": lambda fr, v: SUM(prod(IX(v, j), SUM(prod(IX(K, fr, k), IX(J, k, j)), k)), j),
+    }
+    names = list(tmpl)
+    combos = [(p_, q_) for p_ in names for q_ in names]
+    if not full:
+        rng.shuffle(combos)
+        combos = combos[:5]
+    for p_, q_ in combos:
+        out.append((f"pair_{p_}_{q_}", prod(tmpl[p_](a_, vt), tmpl[q_](b_, wt))))
+    out.append(("pair_sum", SUM(prod(Sum(tmpl["Iv"](a_, vt), tmpl["KJv"](a_, wt)), tmpl["Iv"](b_, wt), IX(vt, b_)), b_)))
+    out.append(("triple", prod(tmpl["Iv"](a_, vt), tmpl["Ivl"](b_, wt), tmpl["KJv"](i, vt))))
     return [(f"{cell[:3]}{gdim}_{n}", e) for n, e in out]
 
 
@@ -224,7 +242,58 @@ def reciprocal_cases(rng):
     out.append(("no_mixed", prod(P(d, 2), P(d, 3)), []))
     out.append(("only_recip", prod(R(d), R(P(d, 2))), [d]))
     out.append(("nested_prod", prod(prod(x, prod(d, y)), prod(R(d), R(x))), [d, x]))
+    # reciprocals whose numerator is a constant other than 1, or not a constant
+    C = lambda c, b: Division(c if isinstance(c, ufl.core.expr.Expr) else ufl.as_ufl(c), b)  # noqa: E731
+    out.append(("num2_d", prod(C(2, d), d), [d]))
+    out.append(("num2_d_f", prod(prod(C(2, d), d), y), [d]))
+    out.append(("num3_sq", prod(P(C(3, d), 2), P(d, 2)), [d]))
+    out.append(("num_neg", prod(C(-1, d), P(d, 2)), [d]))
+    out.append(("num_half", prod(d, C(0.5, P(d, 2))), [d]))
+    out.append(("num_float1", prod(C(1.0, d), d), [d]))
+    out.append(("num_expr", prod(C(y, d), d), [d]))
+    out.append(("num2_both", prod(prod(C(2, x), C(3, x)), P(x, 2)), [x]))
+    out.append(("num_rr", prod(R(C(2, d)), R(d)), [d]))
+    out += random_reciprocals(rng, 10)
     return [("rc_" + n, e, nz) for n, e, nz in out]
+
+
+def random_reciprocals(rng, count):
+    """random products of powers / reciprocals (with arbitrary constant numerators) of a few bases"""
+    dom = uflgen.mesh("triangle", 2)
+    d = JacobianDeterminant(dom)
+    x, y = uflgen.coef(()), uflgen.coef(())
+    bases = [d, x, Sum(x, y)]
+    out = []
+    for q in range(count):
+        fs, used = [], []
+        bs = rng.sample(bases, rng.choice([1, 1, 2]))
+        for _ in range(rng.randint(2, 4)):
+            b = rng.choice(bs)
+            n = rng.choice([1, 1, 2, 3])
+            c = ufl.as_ufl(rng.choice([1, 1, 2, 3, -1, 0.5, 1.0]))
+            pw = lambda z, m: z if m == 1 else Power(z, IntValue(m))   # noqa: E731
+            form = rng.choice(["pow", "pow", "c/b^n", "(c/b)^n", "1/(c/b)", "other"])
+            if form == "pow":
+                f = pw(b, n)
+            elif form == "c/b^n":
+                f = Division(c, pw(b, n))
+            elif form == "(c/b)^n":
+                f = pw(Division(c, b), n)
+            elif form == "1/(c/b)":
+                f = Division(IntValue(1), Division(c, b))
+            else:
+                f = y
+            fs.append(f)
+            if b not in used:
+                used.append(b)
+        rng.shuffle(fs)
+        try:
+            e = prod(*fs) if rng.random() < 0.5 else Product(fs[0], prod(*fs[1:]))
+        except ValueError:
+            continue
+        if isinstance(e, Product):
+            out.append((f"rnd{q}", e, used))
+    return out
 
 
 def real_exponent_cases():
@@ -513,13 +582,18 @@ def random_cases(run, rng):
             i = g.pool[0]
         try:
             body = g.scalar({j: 2}, 2)
-            kind = r.choice(["I", "KJ", "I_l", "KJ_push"])
+            kind = r.choice(["I", "KJ", "I_l", "KJ_push", "pair", "pair"])
             if kind == "I":
                 e = SUM(prod(IX(It, i, j), body), j)
             elif kind == "I_l":
                 e = SUM(prod(body, IX(It, j, i)), j)
             elif kind == "KJ":
                 e = SUM(SUM(prod(IX(K, i, k), IX(J, k, j), body), k), j)
+            elif kind == "pair":
+                # two eliminations over the same dummy object j with different free partners
+                i2 = Index()
+                body2 = g.scalar({j: 2}, 1)
+                e = prod(SUM(prod(IX(It, i, j), body), j), SUM(prod(body2, IX(It, j, i2)), j))
             else:
                 e = SUM(prod(body, SUM(prod(IX(J, k, j), IX(K, i, k)), k)), j)
         except (C10_gen.GenError, ValueError, KeyError, IndexError):
